@@ -1,7 +1,7 @@
 #!/bin/bash
 # Runs every claimed check's thorough tier in turn (time-capped per check) with the given seed.
 cd "$(dirname "$0")/.." || exit 2
-seed=${1:-1}; secs=${2:-600}
+seed=${1:-1}; secs=${2:-600}; mkdir -p .cache
 for p in C12 C15 C03 C09 C18 C13 C14 C06 C20; do
   echo "=== $p thorough seed=$seed"
   VERIF_SEED=$seed VERIF_THOROUGH_SECONDS=$secs ./check.sh $p thorough > .cache/thorough-$p.log 2>&1
